@@ -33,7 +33,7 @@ def gen(rng, n):
             mx = max([o[1] for o in ops if o[0] == 1] + [1])
             cands = [(n2, t2) for n2 in NS for t2 in TS if mx // t2 <= max(2000, 200000 // n2)]
             if cands:
-                yield join(list(rng.choice(cands)) + [hdr[2]], ops); k += 1
+                yield join(list(rng.choice(cands)) + [hdr[2], hdr[3]], ops); k += 1
 
 
 def nontrivial(script, out):
